@@ -718,6 +718,24 @@ FIXED.append(
 )
 
 
+FIXED.append(
+    {  # possibly-empty refined lists over a CONCRETE element class whose fields are all built-in (no decider is consulted
+        # when such an element is built), directly and one level further down
+        "name": "fx_calls",
+        "abstracts": [{"name": "Expr", "parent": None, "style": "abc"}],
+        "prods": [
+            {"name": "Lit", "parent": "Expr", "fields": [["v", ["ann", ["int"], ["IntRange", 0, 9]]]]},
+            {"name": "Add", "parent": "Expr", "fields": [["l", ["ref", "Expr"]], ["r", ["ref", "Expr"]]]},
+            {"name": "Call", "parent": "Expr", "fields": [["args", ["ann", ["list", ["ref", "Arg"]], ["ListSizeBetween", 0, 3]]]]},
+            {"name": "Call2", "parent": "Expr", "fields": [["args", ["ann", ["list", ["ref", "Group"]], ["LSBWLO", 0, 2]]]]},
+            {"name": "Arg", "parent": None, "fields": [["position", ["ann", ["int"], ["IntRange", 0, 3]]], ["value", ["float"]]]},
+            {"name": "Group", "parent": None, "fields": [["first", ["ref", "Arg"]], ["flag", ["bool"]]]},
+        ],
+        "start": "Expr",
+    }
+)
+
+
 def family(seed: int, n: int, profile="general", with_fixed=True):
     """Yields n descriptors (fixed members first)."""
     out = []
